@@ -425,6 +425,10 @@ class ReaderModel(Model):
                 key = it.lvalue(fr, obj, depth) if obj is not None else None
                 if isinstance(key, str) and key.startswith('out.'):
                     it.act('STORE', key[4:], 'VIEW')
+                    return TOP
+                o = strip(obj) if obj is not None else None
+                if o is not None and o['k'] == 'DeclRefExpr' and o.get('d') in fr.env and len(avals) == 1:
+                    fr.env[o['d']] = avals[0]       # a local view declared earlier and assigned the chunk / block later
                 return TOP
             return TOP
         if not callee.get('repo'):
